@@ -13,7 +13,8 @@ EXPLANATION = (
     "every `rename = ..` is the raw JSON name; (D3) every decision table that is evaluated after cycle breaking and has an "
     "Option(_) arm also has a Box(_) arm, because the cycle breaker may wrap an Option node in a Box; (D4) the enum emitter's "
     "representation attributes are a function of EnumTagType with the holes bound to the IR's own tag/content fields, and "
-    "property naming attributes follow StructPropertyRename."
+    "property naming attributes follow StructPropertyRename; "
+    "D1 sees through the crate's own token-producing helpers; tabulated matches must have one unguarded arm per case."
 )
 ASSUMPTIONS = ["serde's handling of default/skip_serializing_if/flatten/rename as documented"]
 
